@@ -7,6 +7,7 @@ mod coverage;
 mod front;
 mod graph;
 mod lexer;
+mod sources;
 
 use crate::core::{Ann, Naming};
 
@@ -48,6 +49,9 @@ fn main() {
         | "replay-blocks" => blocks::replay_blocks(&args[2], &args[3]),
         | "replay-lexer" => lexer::replay_lexer(&args[2], &args[3]),
         | "junk-suffix" => lexer::junk_suffix(&args[2]),
+        | "generativity" => sources::generativity(&args[2]),
+        | "replay-sources" => sources::replay_sources(&args[2], &args[3]),
+        | "replay-split" => core::replay_split(&args[2], &args[3]),
         | "corpus-run" => {
             // zyconf corpus-run OUT MUTANTS_PER_FILE MAX_STEPS
             corpus::corpus_run(&args[2], args[3].parse().unwrap(), args[4].parse().unwrap());
